@@ -134,6 +134,9 @@ func genShape(c *sim.Case, label string, w *sim.World) *sim.Behaviour {
 		c.Class("idp:aud-array")
 	}
 	b.TokenType = sim.PickStr(c, label+".tt", "Bearer", "bearer", "BEARER", "bEaReR")
+	w.IdP.AtHash = sim.Bool(c, label+".at_hash")
+	// RFC 6749 5.1 shows "application/json;charset=UTF-8"; media types are case-insensitive and may carry parameters
+	b.RespContentType = sim.PickStr(c, label+".ct", "", "", "application/json;charset=UTF-8", "application/json; charset=utf-8", "Application/JSON")
 	if sim.Bool(c, label+".extra") {
 		b.Extra = map[string]any{"scope": "openid email", "session_state": "abc", "not-before-policy": 0,
 			"nested": map[string]any{"a": []any{1, "x", nil}}, "refresh_expires_in": 1800}
